@@ -95,7 +95,7 @@ pub fn def() -> PropDef {
         ],
         subs: vec![Sub {
             name: "roundtrip",
-            cases: |t| t.pick(100_000, 3_000_000),
+            cases: |t| t.pick(500_000, 6_000_000),
             run,
             replay: |v| replay_case::<Case>(v, check),
             min_class: &[("depth>=2", 0.1), ("delimiter-in-string", 0.3), ("concatenation", 0.3)],
